@@ -365,3 +365,35 @@ func (ck *Check) Main(t *testing.T) {
 		}
 	})
 }
+
+// FuzzBody adapts a check to native `go test -fuzz` through rapid.MakeFuzz: the fuzzer's bytes drive the
+// same generator, the same executor judges, and a failure is saved as the usual JSON replay file.
+func (ck *Check) FuzzBody() func(*rapid.T) {
+	open := OpenKeys(ck.ID)
+	return func(rt *rapid.T) {
+		c := ck.Gen(rt)
+		b, err := json.Marshal(c)
+		if err != nil {
+			rt.Fatalf("case not serialisable: %v", err)
+		}
+		c2 := ck.New()
+		if err := json.Unmarshal(b, c2); err != nil {
+			rt.Fatalf("case does not round-trip: %v", err)
+		}
+		f := ck.Run(c2, &Rec{})
+		if f == nil || open[f.Key] {
+			return
+		}
+		sum := sha256.Sum256(b)
+		dir := filepath.Join(Root(), "replays", ck.ID)
+		os.MkdirAll(dir, 0o755)
+		name := "fail-"
+		if ck.Part != "" {
+			name += ck.Part + "-"
+		}
+		p := filepath.Join(dir, name+"fuzz-"+hex.EncodeToString(sum[:6])+".json")
+		ioutil.WriteFile(p, b, 0o644)
+		fmt.Printf("VIOLATION property=%s replay=%s\n  cause: [%s] %s\n", ck.ID, p, f.Key, f.Msg)
+		rt.Fatalf("[%s] %s", f.Key, f.Msg)
+	}
+}
